@@ -1,7 +1,19 @@
-import CalVerif.Lemmas.Biff
+import CalVerif.Lemmas.BiffSheet
+import CalVerif.Lemmas.BiffRange
 /-! C02 — XLS (BIFF8): every cell record reads back at its position with its value.
-    Property theorems about the model `Model/Biff.lean` (namespace `BiffCells`), parametric in the two float
-    operations `FOps` (`v as f64`, `x / 100.0`), which are never reasoned about. -/
+
+    Property theorems about the model `Model/Biff.lean` (namespace `BiffCells`) and the encoder
+    `Spec/BiffEnc.lean`. Everything is parametric in the two float operations `FOps` (`v as f64`, `x / 100.0`),
+    which are never reasoned about. Helper lemmas: `Lemmas/Biff*.lean`.
+
+    * `rk_spec`, `rkInt_roundtrip`, `rkInt100_roundtrip`, `rkFloat_roundtrip` — RK numbers
+    * `parseErr_code/_inj/_other`, `boolerr_bool`, `boolerr_error`, `boolerr_other` — BOOLERR one-to-one
+    * `mulrk_columns`, `mulrk_rejects`, `mulrk_no_panic`, `mulrk_run` — MULRK column arithmetic (after D31)
+    * `record_framing_roundtrip` — `RecordIter` over framed records
+    * `formula_cached_value` — the FormulaValue shapes, string results from the next STRING record
+    * `number_encodings_equal`, `biff_encoding_independent` — NUMBER / RK / MULRK / FORMULA agree numerically
+    * `biff_sheet_roundtrip` — the range of an encoded sheet is its bounding box with every value in place,
+      for every layout (record choice, MULRK grouping, ignorable records) -/
 
 namespace BiffCells
 open Biff
@@ -78,6 +90,253 @@ theorem parseErr_other (e : Nat) (h : ∀ k, e ≠ errCode k) : parseErr e = .er
   simp [parseErr, h0, h1, h2, h3, h4, h5, h6, h7]
 
 
+
+/-- BOOLERR with `fError = 0`: a boolean -/
+theorem boolerr_bool (row col xf : Nat) (b : Bool) (hr : row < 65536) (hc : col < 65536) (hx : xf < 65536) :
+    parseBoolErr (le16 row ++ le16 col ++ le16 xf ++ [byte (if b then 1 else 0), byte 0]) =
+      .ok (row, col, .bool b) := by
+  obtain ⟨h0, h2, _, hl, _, hb⟩ := hdr_reads row col xf [byte (if b then 1 else 0), byte 0] hr hc hx
+  have h6 := hb 0; have h7 := hb 1
+  simp only [Nat.add_zero] at h6
+  simp only [parseBoolErr, hl, h0, h2, h6, h7]
+  cases b <;> simp [byteAt, byte_toNat]
+
+/-- BOOLERR with `fError = 1`: each of the 8 error codes gives its error kind -/
+theorem boolerr_error (row col xf : Nat) (k : ErrKind) (hr : row < 65536) (hc : col < 65536) (hx : xf < 65536) :
+    parseBoolErr (le16 row ++ le16 col ++ le16 xf ++ [byte (errCode k), byte 1]) =
+      .ok (row, col, .error k) := by
+  obtain ⟨h0, h2, _, hl, _, hb⟩ := hdr_reads row col xf [byte (errCode k), byte 1] hr hc hx
+  have h6 := hb 0; have h7 := hb 1
+  simp only [Nat.add_zero] at h6
+  have e6 : byteAt [byte (errCode k), byte 1] 0 = errCode k := by
+    simp [byteAt, byte_toNat]; have := errCode_lt k; omega
+  simp only [parseBoolErr, hl, h0, h2, h6, h7, e6]
+  simp [byteAt, byte_toNat, parseErr_code]
+
+/-- any other error code or `fError` value is an error, not a value -/
+theorem boolerr_other (r : Bytes) (hl : 8 ≤ r.length)
+    (h : (byteAt r 7 ≠ 0 ∧ byteAt r 7 ≠ 1) ∨ (byteAt r 7 = 1 ∧ ∀ k, byteAt r 6 ≠ errCode k)) :
+    ∃ e, parseBoolErr r = .err e := by
+  unfold parseBoolErr
+  rw [if_neg (by omega)]
+  rcases h with ⟨h0, h1⟩ | ⟨h1, hk⟩
+  · exact ⟨"Unrecognized:fError", by simp [h0, h1]⟩
+  · exact ⟨"Unrecognized:error", by simp [h1, parseErr_other _ hk]⟩
+
+/-! ### MULRK -/
+
+/-- a MULRK record the reader accepts names `last − first + 1` columns, holds exactly that many `(ixfe, rk)` pairs,
+    and yields one cell per pair at `(row, first + i)` -/
+theorem mulrk_columns (env : Env) (r : Bytes) (cs : List Cell) (h : parseMulRk env r = .ok cs) :
+    u16At r 2 ≤ u16At r (r.length - 2) ∧
+    r.length = 6 + 6 * (u16At r (r.length - 2) + 1 - u16At r 2) ∧
+    cs.length = u16At r (r.length - 2) + 1 - u16At r 2 ∧
+    ∀ i, i < cs.length → cs[i]? = some (u16At r 0, u16At r 2 + i, rkNumAt env r (4 + 6 * i)) := by
+  unfold parseMulRk at h
+  split at h
+  · cases h
+  · simp only at h
+    split at h
+    · cases h
+    · next hcond =>
+      injection h with h
+      subst h
+      have hlen := mulRkLoop_length env r (u16At r 0) (u16At r (r.length - 2) + 1 - u16At r 2) 4 (u16At r 2)
+      refine ⟨by omega, by omega, hlen, ?_⟩
+      intro i hi
+      rw [hlen] at hi
+      exact mulRkLoop_get env r (u16At r 0) _ 4 (u16At r 2) i hi
+
+/-- (after D31) a last column before the first, or a length that disagrees with the column span, is a `Len` error -/
+theorem mulrk_rejects (env : Env) (r : Bytes)
+    (h : r.length < 6 ∨ u16At r (r.length - 2) < u16At r 2 ∨
+      r.length ≠ 6 + 6 * (u16At r (r.length - 2) + 1 - u16At r 2)) :
+    parseMulRk env r = .err "Len:rk" := by
+  unfold parseMulRk
+  by_cases h6 : r.length < 6
+  · simp [h6]
+  · rcases h with h | h | h
+    · exact absurd h h6
+    · simp [h6, h]
+    · simp [h6, h]
+
+/-- … and never a panic, whatever the bytes -/
+theorem mulrk_no_panic (env : Env) (r : Bytes) (s : String) : parseMulRk env r ≠ .panic s := by
+  unfold parseMulRk
+  split
+  · simp
+  · simp only; split <;> simp
+
+/-- the MULRK record the encoder writes for a run of RK cells reads back as those cells, column by column -/
+theorem mulrk_run (env : Env) (row c0 : Nat) (g : List PC) (hne : g ≠ []) (hr : row < 65536)
+    (hc : c0 + g.length ≤ 65536) (hg : ∀ q ∈ g, q.xf < 65536 ∧ rkWord q < 4294967296) :
+    parseMulRk env (mulRkData row c0 g) = .ok (runCells env row c0 g) :=
+  parseMulRk_run env row c0 g hne hr hc hg
+
+/-! ### framing -/
+
+/-- `RecordIter` over `frame rs` yields exactly `rs`: for records with a 16-bit id other than CONTINUE, a
+    payload that fits the 16-bit length field (BIFF8 allows ≤ 8224 bytes) and no CONTINUE chunks
+    (CONTINUE gathering is C12's `frame_roundtrip`) -/
+theorem record_framing_roundtrip (rs : List Rec) (h : ∀ r ∈ rs, plainRec r) :
+    items (frame rs) = rs.map .record :=
+  items_frame rs h
+
+/-! ### FORMULA -/
+
+/-- the value a cached result stands for (a number is typed by the cell's XF like NUMBER / RK cells) -/
+def cachedVal (env : Env) (xf : Nat) : Cached → Val
+  | .num x => fmtF64 x env.fmts[xf]? env.is1904
+  | .str _ s _ => .str s
+  | .bool b => .bool b
+  | .err k => .error k
+  | .blank => .str []
+
+/-- the FORMULA record (followed, for a string result, by ignorable records and the STRING record) puts exactly
+    the cached value at the formula's cell: number, boolean, error, blank string from the FormulaValue field,
+    a string from the STRING record that follows -/
+theorem formula_cached_value (env : Env) (st : St) (p : PC) (c : Cached) (rgce : Bytes)
+    (hp : p.phys = .formula c rgce) (hok : PCok env p) :
+    ∃ f, runRecs env (physRecs p) st = .ok ⟨st.cells ++ [(p.row, p.col, cachedVal env p.xf c)], f⟩ := by
+  obtain ⟨f, hf⟩ := runRecs_phys env st p hok
+  refine ⟨f, ?_⟩
+  rw [hf]
+  simp only [pcCell, pcVal, hp]
+  cases c <;> rfl
+
+/-! ### the whole sheet -/
+
+theorem biff_sheet_roundtrip (env : Env) (S : List LCell) (lays : List Lay)
+    (hS : ∀ c ∈ S, cellOk c) (hsorted : S.Pairwise cellLt)
+    (hfmt : ∀ l, (l ∈ lays ∨ l = default) → plainFmt env (l.xf % 65536)) :
+    ∃ r, sheetRange env (substream env S lays) = .ok r ∧
+      (S = [] → r.inner.length = 0) ∧
+      (S ≠ [] → r.inner.length ≠ 0 ∧
+        (∀ c ∈ S, r.sr ≤ c.row ∧ c.row ≤ r.er ∧ r.sc ≤ c.col ∧ c.col ≤ r.ec) ∧
+        (∃ c ∈ S, c.row = r.sr) ∧ (∃ c ∈ S, c.row = r.er) ∧
+        (∃ c ∈ S, c.col = r.sc) ∧ (∃ c ∈ S, c.col = r.ec)) ∧
+      (∀ c ∈ S, numView env.ops (r.valAt c.row c.col) = c.val.toVal) ∧
+      (∀ p q, (∀ c ∈ S, ¬ (c.row = p ∧ c.col = q)) → r.valAt p q = Val.empty) := by
+  -- the planned cells and what the loop makes of them
+  have hplan := plan_mem env S lays
+  have hok : ∀ p ∈ plan env S lays, PCok env p := by
+    intro p hp
+    obtain ⟨c, hc, l, _, e⟩ := hplan p hp
+    rw [e]; exact planCell_ok env c l (hS c hc)
+  have hdec : decodeSheet env (items (substream env S lays)) = .ok ((plan env S lays).map (pcCell env)) :=
+    decode_substream env (plan env S lays) hok
+  have hpos : ((plan env S lays).map (pcCell env)).map (fun x => (x.1, x.2.1)) = S.map (fun c => (c.row, c.col)) := by
+    rw [List.map_map, ← plan_pos env S lays]; rfl
+  -- cells → S and back
+  have toS : ∀ x ∈ (plan env S lays).map (pcCell env), ∃ c ∈ S, c.row = x.1 ∧ c.col = x.2.1 := by
+    intro x hx
+    have : (x.1, x.2.1) ∈ S.map (fun c => (c.row, c.col)) := by
+      rw [← hpos]; exact List.mem_map.mpr ⟨x, hx, rfl⟩
+    obtain ⟨c, hc, e⟩ := List.mem_map.mp this
+    simp only [Prod.mk.injEq] at e
+    exact ⟨c, hc, e.1, e.2⟩
+  have ofS : ∀ c ∈ S, ∃ x ∈ (plan env S lays).map (pcCell env), x.1 = c.row ∧ x.2.1 = c.col ∧
+      numView env.ops x.2.2 = c.val.toVal := by
+    intro c hc
+    have : (c.row, c.col) ∈ ((plan env S lays).map (pcCell env)).map (fun x => (x.1, x.2.1)) := by
+      rw [hpos]; exact List.mem_map.mpr ⟨c, hc, rfl⟩
+    obtain ⟨x, hx, e⟩ := List.mem_map.mp this
+    simp only [Prod.mk.injEq] at e
+    refine ⟨x, hx, e.1, e.2, ?_⟩
+    obtain ⟨p, hp, rfl⟩ := List.mem_map.mp hx
+    obtain ⟨c', hc', l, hl, rfl⟩ := hplan p hp
+    have : c' = c := pairwise_inj S hsorted c' hc' c hc e.1 e.2
+    subst this
+    exact planCell_val env c' l (hfmt l hl)
+  have hpw : ((plan env S lays).map (pcCell env)).Pairwise Range.posLt := by
+    have h1 : (S.map (fun c => (c.row, c.col))).Pairwise
+        (fun a b : Nat × Nat => a.1 < b.1 ∨ (a.1 = b.1 ∧ a.2 < b.2)) := by
+      rw [List.pairwise_map]; exact hsorted
+    rw [← hpos, List.pairwise_map] at h1
+    exact h1
+  have hb : ∀ x ∈ (plan env S lays).map (pcCell env), x.1 < 65536 ∧ x.2.1 < 256 := by
+    intro x hx
+    obtain ⟨p, hp, rfl⟩ := List.mem_map.mp hx
+    exact ⟨(hok p hp).1, (hok p hp).2.1⟩
+  obtain ⟨r, hr, hemp, hbox, hval, hout⟩ := Range.fromSparse_sorted _ hpw hb
+  refine ⟨r, ?_, ?_, ?_, ?_, ?_⟩
+  · simp only [sheetRange, hdec, rangeOf]; exact hr
+  · intro hnil; apply hemp; rw [hnil]; simp [plan]
+  · intro hne
+    have hne' : (plan env S lays).map (pcCell env) ≠ [] := by
+      intro h0
+      have := congrArg List.length hpos
+      rw [h0] at this; simp at this
+      exact hne (List.eq_nil_of_length_eq_zero this.symm)
+    obtain ⟨h0, h1, ⟨a, ha, ea⟩, ⟨b, hb', eb⟩, ⟨c, hc, ec⟩, ⟨d, hd, ed⟩⟩ := hbox hne'
+    refine ⟨h0, ?_, ?_, ?_, ?_, ?_⟩
+    · intro c hc
+      obtain ⟨x, hx, e1, e2, _⟩ := ofS c hc
+      have := h1 x hx
+      rw [e1, e2] at this; exact this
+    · obtain ⟨s, hs, e1, _⟩ := toS a ha; exact ⟨s, hs, by rw [e1, ea]⟩
+    · obtain ⟨s, hs, e1, _⟩ := toS b hb'; exact ⟨s, hs, by rw [e1, eb]⟩
+    · obtain ⟨s, hs, _, e2⟩ := toS c hc; exact ⟨s, hs, by rw [e2, ec]⟩
+    · obtain ⟨s, hs, _, e2⟩ := toS d hd; exact ⟨s, hs, by rw [e2, ed]⟩
+  · intro c hc
+    obtain ⟨x, hx, e1, e2, e3⟩ := ofS c hc
+    rw [← e1, ← e2, hval x hx]; exact e3
+  · intro p q hno
+    apply hout
+    intro x hx ⟨e1, e2⟩
+    obtain ⟨s, hs, f1, f2⟩ := toS x hx
+    exact hno s hs ⟨by rw [f1, e1], by rw [f2, e2]⟩
+
+
+/-- an empty sheet (BOF, ignorable records, EOF) reads as the empty range -/
+theorem biff_sheet_empty (env : Env) (lays : List Lay) :
+    sheetRange env (substream env [] lays) = .ok Range.empty := by
+  have hdec : decodeSheet env (items (substream env [] lays)) = .ok (([] : List PC).map (pcCell env)) :=
+    decode_substream env [] (by simp)
+  simp only [sheetRange, hdec, rangeOf, List.map_nil, Range.fromSparse]
+
+/-- the same number stored as NUMBER, as any RK word that denotes it (integer, float, ×100 variants), inside a
+    MULRK run or as a cached FORMULA value reads as a numerically equal value at the same cell -/
+theorem number_encodings_equal (env : Env) (c : LCell) (x : Nat) (l1 l2 : Lay) (hv : c.val = .num x)
+    (h1 : plainFmt env (l1.xf % 65536)) (h2 : plainFmt env (l2.xf % 65536)) :
+    pcCell env (planCell env c l1) = (c.row, c.col, pcVal env (planCell env c l1)) ∧
+    pcCell env (planCell env c l2) = (c.row, c.col, pcVal env (planCell env c l2)) ∧
+    numView env.ops (pcVal env (planCell env c l1)) = .float x ∧
+    numView env.ops (pcVal env (planCell env c l2)) = .float x := by
+  refine ⟨rfl, rfl, ?_, ?_⟩
+  · rw [planCell_val env c l1 h1, hv]; rfl
+  · rw [planCell_val env c l2 h2, hv]; rfl
+
+/-- two layouts of the same sheet (any record choices, MULRK grouping, ignorable records) give ranges with the same
+    bounds and numerically equal values at every position -/
+theorem biff_encoding_independent (env : Env) (S : List LCell) (lays1 lays2 : List Lay)
+    (hS : ∀ c ∈ S, cellOk c) (hsorted : S.Pairwise cellLt)
+    (hf1 : ∀ l, (l ∈ lays1 ∨ l = default) → plainFmt env (l.xf % 65536))
+    (hf2 : ∀ l, (l ∈ lays2 ∨ l = default) → plainFmt env (l.xf % 65536)) :
+    ∃ r1 r2, sheetRange env (substream env S lays1) = .ok r1 ∧ sheetRange env (substream env S lays2) = .ok r2 ∧
+      (r1.inner.length = 0 ↔ r2.inner.length = 0) ∧
+      (S ≠ [] → r1.sr = r2.sr ∧ r1.er = r2.er ∧ r1.sc = r2.sc ∧ r1.ec = r2.ec) ∧
+      ∀ p q, numView env.ops (r1.valAt p q) = numView env.ops (r2.valAt p q) := by
+  obtain ⟨r1, e1, z1, n1, v1, o1⟩ := biff_sheet_roundtrip env S lays1 hS hsorted hf1
+  obtain ⟨r2, e2, z2, n2, v2, o2⟩ := biff_sheet_roundtrip env S lays2 hS hsorted hf2
+  refine ⟨r1, r2, e1, e2, ?_, ?_, ?_⟩
+  · by_cases hS0 : S = []
+    · simp [z1 hS0, z2 hS0]
+    · have a := (n1 hS0).1; have b := (n2 hS0).1
+      simp [a, b]
+  · intro hne
+    obtain ⟨_, b1, ⟨a1, ha1, ea1⟩, ⟨c1, hc1, ec1⟩, ⟨d1, hd1, ed1⟩, ⟨f1, hf1', ef1⟩⟩ := n1 hne
+    obtain ⟨_, b2, ⟨a2, ha2, ea2⟩, ⟨c2, hc2, ec2⟩, ⟨d2, hd2, ed2⟩, ⟨f2, hf2', ef2⟩⟩ := n2 hne
+    have := b1 a2 ha2; have := b2 a1 ha1; have := b1 c2 hc2; have := b2 c1 hc1
+    have := b1 d2 hd2; have := b2 d1 hd1; have := b1 f2 hf2'; have := b2 f1 hf1'
+    refine ⟨?_, ?_, ?_, ?_⟩ <;> omega
+  · intro p q
+    by_cases h : ∃ c ∈ S, c.row = p ∧ c.col = q
+    · obtain ⟨c, hc, rfl, rfl⟩ := h
+      rw [v1 c hc, v2 c hc]
+    · have hno : ∀ c ∈ S, ¬ (c.row = p ∧ c.col = q) := fun c hc hpq => h ⟨c, hc, hpq⟩
+      rw [o1 p q hno, o2 p q hno]
+
 /-- non-vacuity: −5 as an RK integer (the word 0xFFFFFFEE), 12.34 as 1234 with fX100, 1.5 as an RK float -/
 example (ops : FOps) : rkNum ops 0xFFFFFFEE = .int (-5) ∧ encodeRkInt (-5) false = 0xFFFFFFEE
     ∧ rkNum ops (encodeRkInt 1234 true) = .float (ops.div100 (ops.i2f 1234))
@@ -89,5 +348,32 @@ example (ops : FOps) : rkNum ops 0xFFFFFFEE = .int (-5) ∧ encodeRkInt (-5) fal
   · simpa using rkInt100_roundtrip ops 1234 (by decide) (by decide)
   · simpa using rkInt100_roundtrip ops 1200 (by decide) (by decide)
   · simpa using rkFloat_roundtrip ops 0x3FF8000000000000 (by decide) (by decide) false
+
+
+/-- non-vacuity of `biff_sheet_roundtrip`: a sheet with a number (stored as the RK integer 5 inside a MULRK run),
+    its neighbour, a shared string, an error and a formula string meets every hypothesis -/
+example (ops : FOps) (h5 : ops.i2f 5 = 0x4014000000000000) :
+    let env : Env := { ops := ops, fmts := [.other, .dateTime], is1904 := false, strings := [[0x61, 0x62]] }
+    let S : List LCell := [⟨0, 1, .num 0x4014000000000000⟩, ⟨0, 2, .num 0x4014000000000000⟩,
+      ⟨3, 0, .str [0x61, 0x62]⟩, ⟨65535, 255, .err .na⟩]
+    let lays : List Lay := [{ enc := .num (.rk 22) }, { enc := .num (.rk 22), join := true },
+      { enc := .labelSst 0, before := [⟨0x0201, [0, 0, 0, 0, 0, 0], []⟩] }, { enc := .formula [0x1E, 1, 0] false [] false }]
+    (∀ c ∈ S, cellOk c) ∧ S.Pairwise cellLt ∧ (∀ l, (l ∈ lays ∨ l = default) → plainFmt env (l.xf % 65536)) ∧
+    choose env (.num 0x4014000000000000) (.num (.rk 22)) = .rk 22 := by
+  intro env S lays
+  refine ⟨?_, ?_, ?_, ?_⟩
+  · intro c hc
+    simp only [S, List.mem_cons, List.not_mem_nil, or_false] at hc
+    rcases hc with rfl | rfl | rfl | rfl <;>
+      simp [cellOk, lvalOk, textOk, validText, toUnits]
+  · simp [S, cellLt]
+  · intro l hl
+    have : l.xf = 0 := by
+      rcases hl with hl | hl
+      · simp only [lays, List.mem_cons, List.not_mem_nil, or_false] at hl
+        rcases hl with rfl | rfl | rfl | rfl <;> rfl
+      · rw [hl]; rfl
+    rw [this]; right; rfl
+  · simp [choose, rkSpec, numBits, env, h5]
 
 end BiffCells
